@@ -677,11 +677,11 @@ func (w *world) reloadDamaged(name string) {
 	after := poolNames(w)
 	if ok {
 		if len(after) != len(saved) {
-			vfail("damaged-reload/"+where+"/reported-success-with-a-different-pool", "after %s: MempoolLoad returned true, pool %v, saved pool was %v", name, keysOf(after), keysOf(saved))
+			vfail("damaged-reload/reported-success-with-a-different-pool", "after %s: MempoolLoad returned true, pool %v, saved pool was %v", name, keysOf(after), keysOf(saved))
 		}
 		for n := range saved {
 			if !after[n] {
-				vfail("damaged-reload/"+where+"/reported-success-with-a-different-pool", "after %s: MempoolLoad returned true, pool %v, saved pool was %v", name, keysOf(after), keysOf(saved))
+				vfail("damaged-reload/reported-success-with-a-different-pool", "after %s: MempoolLoad returned true, pool %v, saved pool was %v", name, keysOf(after), keysOf(saved))
 			}
 		}
 	} else {
@@ -694,7 +694,7 @@ func (w *world) reloadDamaged(name string) {
 			txpool.TransactionsToSendSize == 0 && txpool.TransactionsToSendWeight == 0 && txpool.BestT2S == nil && txpool.WorstT2S == nil
 		txpool.TxMutex.Unlock()
 		if !empty {
-			vfail("damaged-reload/"+where+"/failed-load-leaves-a-pool-behind", "after %s: MempoolLoad returned false but left state behind (%s; pool %v, saved pool was %v)", name, left, keysOf(after), keysOf(saved))
+			vfail("damaged-reload/failed-load-leaves-a-pool-behind", "after %s: MempoolLoad returned false but left state behind (%s; pool %v, saved pool was %v)", name, left, keysOf(after), keysOf(saved))
 		}
 	}
 	w.oracle(name)
@@ -1662,7 +1662,7 @@ var scenarios = []scenario{
 	{"rbf-own-parent", []string{"net:T1", "net:C1", "net:R", "net:R2", "net:R3", "tru:R2", "mine:best", "list", "reorg:"}, false, true, false},
 	{"levels", []string{"net:LG", "net:LP2", "net:LP1", "net:LC", "list", "mine:best", "mine:LG", "reorg:"}, false, true, false},
 	{"pkg-rbf", []string{"net:T1", "net:C1", "net:G", "net:G2", "net:C1x", "net:Gx", "net:G2x", "list", "adv13h", "tick"}, false, false, true},
-	{"badfile", []string{"net:T1", "net:C1", "net:T1hi", "net:O", "reload-cut:tx1", "reload-cut:tail5", "reload-cut:flip-end", "reload", "list"}, false, true, false},
+	{"badfile", []string{"net:T1", "net:C1", "net:T1hi", "net:O", "reload-cut:tx1", "reload-cut:tail5", "reload-cut:flip-end", "reload", "list"}, false, true, true},
 	{"side", []string{"net:SR", "net:SQ", "net:TM", "net:CM2", "net:CS2", "list", "adv13h", "mine:T2"}, false, true, false},
 	{"final-rbf", []string{"net:T1", "net:T1hi", "tru:T1hi", "loc:T1hi", "net:C1", "mine:best", "mine:T1hi", "reorg:", "list"}, true, true, false},
 }
@@ -2128,8 +2128,9 @@ func main() {
 		"samples":                         x.samples.L,
 		"rule": "BFS over event histories per scenario (one event menu each; per_scenario lists them; final-rbf = NotFullRBF configuration), every history in a fresh worker process on a copy of a 105-block chain wired to txpool as client/main.go does; " +
 			"plus scripted long histories (depth instead of breadth): dense = runs of 64 and 200 equal-rate / ascending / descending / converging-rate transactions into one gap of the sorted list with none/high/low/both anchors, then two-parent children (one parent inside the run, one outside), with and without a listing in between; " +
+			"pkg = chains of 3-4 with up-to-date fee packages, then replacement / expiry of the last or a middle member; badfile = pool file cut at every record-boundary class or one byte changed (block hash, record counts, end marker) between MempoolSave and MempoolLoad, which must return true with the saved pool or false with an empty pool, followed by double spends / children / replacements; " +
 			"side = CPFP child whose second parent sits at depth 1-3 of a low-rate unconfirmed chain, parents first and children first, listing before and after every package-rebuild trigger (connected block, undone block, 10-minute suspend, reload); " +
-			"invariant oracle after every event, both listings + block-from-listing acceptance at the end of every history; state key = (confirmed txs, tip block txs, pooled txs with Local/Final/MemInputs/age bucket, rejected records with reason, pending, dirty flags, sort order, fee packages as root+member set, clock buckets, dynamic minimal fee, size limit)",
+			"scripted histories run first and are not subject to the wall-clock budget; invariant oracle after every event; both listings, GetMempoolFees (listed = pooled, no output spent twice, Fee/Weight = sums) and block-from-listing acceptance at the end of every history and at list events; state key = (confirmed txs, tip block txs, pooled txs with Local/Final/MemInputs/age bucket, rejected records with reason, pending, dirty flags, sort order, fee packages as root+member set, clock buckets, dynamic minimal fee, size limit)",
 	}, []string{
 		"universe: 4 mature OP_1 outputs + one OP_0 output + 16 funding outputs; T1, T1lo/T1eq/T1hi (double spends, lower/equal/higher fee rate), T1alt (only ever mined), C1, G, T2, D (diamond), X, O, O2 (orphans), B (bad script, network path only), L (fee below floor), R (double spend that also spends its victim's output), CLo (child of the rejected low-fee double spend), OV (overspend), W (segwit spend), S1..S110 (parent-less, more than the rejected ring holds), T2hi + K1..K101 (replacement of a transaction with 101 descendants), F1..F16 (95 kB) + CF (child paying for F1); SR<-SQ<-SP low-rate chain, TM with children CM2 and CS1/CS2/CS3 (second parent at depth 1/2/3 of the chain); dense family DH/DL anchors, DR1..DRn, children DAi/DBi/DNi built per history from a second funding transaction (block 103)",
 		"script-invalid transactions are submitted only through the network path (SubmitLocalTx/Trusted skip script checks by design); BlockInvalid on trusted blocks and BlockUndone without callbacks are not in the menus",
